@@ -264,6 +264,48 @@ def classify(w: Write, ty: Typer, model: NodeModel, fn: ast.AST) -> T.Tuple[str,
     return v, f'{"/".join(sorted(types))}.{w.attr}'
 
 
+def _is_access_path(text: str) -> bool:
+    try:
+        e = ast.parse(text, mode='eval').body
+    except SyntaxError:
+        return False
+    while isinstance(e, (ast.Attribute, ast.Subscript)):
+        e = e.value
+    return isinstance(e, ast.Name)
+
+
+def _fresh_comma(ctx: RuleCtx, p: Pass, vals: T.Set[str]) -> str:
+    """'fresh' (a new SymbolNode whose token text is `,`), a description of what is wrong, or 'unknown'."""
+    from .c16_sym import bind_args
+    if len(vals) != 1:
+        return 'unknown'
+    e: ast.AST = ast.parse(next(iter(vals)), mode='eval').body
+    if isinstance(e, ast.Call) and (attr_chain(e.func) or '').split('.')[-1] != 'SymbolNode':
+        e = _Inline(ctx, p).resolve(e) or e         # a factory helper: x = SymbolNode(...); x.f = ...; return x
+    if isinstance(e, ast.IfExp):
+        vs = [_fresh_comma(ctx, p, {norm(b)}) for b in (e.body, e.orelse)]
+        bad = [v for v in vs if v not in ('fresh', 'unknown')]
+        return bad[0] if bad else ('unknown' if 'unknown' in vs else 'fresh')
+    if _is_access_path(norm(e)):
+        return 'an existing node of the tree is inserted a second time'
+    if not (isinstance(e, ast.Call) and (attr_chain(e.func) or '').split('.')[-1] == 'SymbolNode'):
+        return 'unknown'
+    mp = ctx.repo.module(MP)
+    tokarg = e.args[0] if e.args else next((k.value for k in e.keywords if k.arg == 'token'), None)
+    if not (isinstance(tokarg, ast.Call) and (attr_chain(tokarg.func) or '').split('.')[-1] == 'Token'):
+        return 'unknown'
+    fields = [st.target.id for st in mp.cls('Token').body if isinstance(st, ast.AnnAssign) and isinstance(st.target, ast.Name)]
+    fake = ast.FunctionDef(name='Token', args=ast.arguments(posonlyargs=[], args=[ast.arg(arg=f) for f in fields], kwonlyargs=[], kw_defaults=[], defaults=[]),
+                           body=[], decorator_list=[])
+    m = bind_args(fake, tokarg, False)
+    if m is None or 'value' not in m or 'tid' not in m:
+        return 'unknown'
+    v = m['value']
+    if not isinstance(v, ast.Constant):
+        return 'unknown'
+    return 'fresh' if v.value == ',' else f'its token text is {v.value!r}, not a comma'
+
+
 def _first_param(fn: ast.FunctionDef) -> str:
     ps = [a.arg for a in fn.args.args if a.arg not in ('self', 'cls')]
     if not ps:
@@ -374,7 +416,7 @@ def r1(ctx: RuleCtx) -> None:
                 else:
                     sem.append((p, qn, fn, w, kind))
     ctx.note(f'{n_own} writes to visitor/local state, {n_layout} layout writes, {len(sem)} semantic write sites')
-    ctx.floor('layout writes on tree nodes', n_layout, 50)
+    ctx.floor('layout writes on tree nodes', n_layout, 35)
     ctx.floor('semantic write sites', len(sem), 8)
     sorters: T.Dict[T.Tuple[str, str], T.Tuple[Pass, ast.FunctionDef, str]] = {}
     for p, qn, fn, w, kind in sem:
@@ -398,6 +440,8 @@ def r1(ctx: RuleCtx) -> None:
             for h, what, hook in hyps:
                 _must_be_unreachable(ctx, p, qn, fn, site, h, what, norm(site), 'argument list replaced outside the documented files([...]) flattening', hook)
             vals = _canon_at(fn, site, w.value) if w.value is not None else set()
+            if vals != {f'{x}.args.arguments[0].args'} and not all(_is_access_path(v) for v in vals):
+                raise Undecided(f'{qn}: the new argument list {sorted(vals)} is computed by code the rule does not follow')
             ctx.require(vals == {f'{x}.args.arguments[0].args'}, f'{qn}: flattening installs the elements of the single array argument', p.mod, qn, norm(site),
                         f'the new argument list is {sorted(vals)}, expected the elements of the only argument ({x}.args.arguments[0].args)', site)
         elif kind == 'sem:sort':
@@ -415,17 +459,17 @@ def r1(ctx: RuleCtx) -> None:
                 for h in trailing_hyps(x, True):
                     _must_be_unreachable(ctx, p, qn, fn, site, h, h.label, norm(site), 'a comma is appended although the list already ends with one (`a,,` does not parse)')
                 vals = _canon_at(fn, site, call.args[0]) if len(call.args) == 1 else set()
-                good = False
-                if len(vals) == 1:
-                    e = ast.parse(next(iter(vals)), mode='eval').body
-                    good = (isinstance(e, ast.Call) and (attr_chain(e.func) or '').split('.')[-1] == 'SymbolNode' and len(e.args) == 1
-                            and isinstance(e.args[0], ast.Call) and (attr_chain(e.args[0].func) or '').split('.')[-1] == 'Token'
-                            and isinstance(e.args[0].args[-1], ast.Constant) and e.args[0].args[-1].value == ',')
-                ctx.require(good, f'{qn}: the appended node is a fresh `,` symbol', p.mod, qn, norm(site), f'the appended comma is {sorted(vals)}, not a new SymbolNode for `,`', site)
+                verdict = _fresh_comma(ctx, p, vals)
+                if verdict == 'unknown':
+                    raise Undecided(f'{qn}: cannot tell what `{short(site)}` appends ({sorted(vals)}): neither a constructor call nor an existing node')
+                ctx.require(verdict == 'fresh', f'{qn}: the appended node is a fresh `,` symbol', p.mod, qn, norm(site),
+                            f'the appended comma is {sorted(vals)}: {verdict}', site)
             else:
                 idx = call.args[0] if call.args else ast.Constant(value=-1)
                 ok_idx = (isinstance(idx, ast.UnaryOp) and isinstance(idx.op, ast.USub) and isinstance(idx.operand, ast.Constant) and idx.operand.value == 1) \
                     or (isinstance(idx, ast.Constant) and idx.value == -1)
+                if not ok_idx and not isinstance(idx, ast.Constant):
+                    raise Undecided(f'{qn}: `{short(site)}` pops a comma at a computed position')
                 ctx.require(ok_idx, f'{qn}: pops the last comma', p.mod, qn, norm(site), f'pops comma {norm(idx)}; only the trailing comma (last) may be removed', site)
                 for h in trailing_hyps(x, False):
                     _must_be_unreachable(ctx, p, qn, fn, site, h, h.label, norm(site), 'a comma is popped although it separates two arguments')
@@ -439,8 +483,11 @@ def r1(ctx: RuleCtx) -> None:
                             and any(x[1].name == cname for x in ctx.repo.mro(p.mod, p.cls)):
                         from .c16_sym import stmt_of
                         n_calls += 1
-                        idx = [a.arg for a in f0.args.args if a.arg != 'self'].index(param)
-                        _sort_guards(ctx, p, f'{p.name}.{mn}', fn, stmt_of(fn, c), c.args[idx])
+                        from .c16_sym import bind_args
+                        bound = bind_args(f0, c, True)
+                        if bound is None or param not in bound:
+                            raise Undecided(f'{p.name}.{mn}: cannot bind the arguments of `{short(c)}` to {cname}.{mname}')
+                        _sort_guards(ctx, p, f'{p.name}.{mn}', fn, stmt_of(fn, c), bound[param])
     if sorters:
         ctx.floor('call sites of the argument-sorting helper', n_calls, 1)
 
@@ -564,11 +611,20 @@ def _plain_hazards(ctx: RuleCtx) -> T.List[Hazard]:
 
 
 def _fstring_regex(ctx: RuleCtx) -> str:
+    """The substitution regex of f-strings, by role: the regex whose .sub() is applied in evaluate_fstring
+    (inline `re.sub(pattern, ..)` or a compiled module/class constant)."""
     mod = ctx.repo.module(IB)
     fn = mod.func('InterpreterBase.evaluate_fstring')
     for c in ast.walk(fn):
-        if isinstance(c, ast.Call) and call_name(c) in ('re.sub', 're.subn') and c.args:
-            v = fold_expr(ctx.repo, mod, c.args[0])
+        if isinstance(c, ast.Call) and isinstance(c.func, ast.Attribute) and c.func.attr in ('sub', 'subn') and c.args:
+            try:
+                if attr_chain(c.func.value) == 're':
+                    v = fold_expr(ctx.repo, mod, c.args[0], cls='InterpreterBase')
+                else:
+                    v = fold_expr(ctx.repo, mod, c.func.value, cls='InterpreterBase') if attr_chain(c.func.value) not in (None,) and not (attr_chain(c.func.value) or '').startswith('self.') \
+                        else fold_expr(ctx.repo, mod, ast.Name(id=(attr_chain(c.func.value) or '').split('.')[-1], ctx=ast.Load()), cls='InterpreterBase')
+            except Undecided:
+                continue
             if isinstance(v, str):
                 return v
             if isinstance(v, Regex):
@@ -696,6 +752,31 @@ def _movers(p: Pass) -> T.Dict[str, T.Tuple[int, int]]:
     return out
 
 
+def _mover_args(p: Pass, c: ast.Call, movers: T.Dict[str, T.Tuple[int, int]]) -> T.Optional[T.Tuple[ast.AST, ast.AST]]:
+    """(source, destination) of a call of a whitespace mover, arguments bound by the callee's signature."""
+    from .c16_sym import bind_args
+    f = c.func
+    if not (isinstance(f, ast.Attribute) and f.attr in movers):
+        return None
+    fn = _methods(p).get(f.attr)
+    if fn is None:
+        return None
+    recv = attr_chain(f.value)
+    if recv == 'self':
+        m = bind_args(fn, c, True)
+    elif recv == p.name:
+        m = bind_args(fn, c, False)
+    else:
+        return None
+    if m is None:
+        return None
+    ps = [a.arg for a in fn.args.args if a.arg != 'self']
+    i, j = movers[f.attr]
+    if ps[i] in m and ps[j] in m:
+        return m[ps[i]], m[ps[j]]
+    return None
+
+
 class Site(T.NamedTuple):
     stmt: ast.stmt
     owner: ast.AST          # expression of the node/whitespace whose content is discarded
@@ -799,8 +880,29 @@ def _replacement_sites(ctx: RuleCtx, w: Write, ty: Typer, model: NodeModel, fn: 
 
 
 def _rebuild_ok(ctx: RuleCtx, p: Pass, qn: str, fn: ast.FunctionDef, site: ast.stmt, loc: str, var: str) -> T.Optional[str]:
-    """`var = LOC.splitlines(..)`; LOC reset; every element of var re-appended to LOC. Returns a problem text or None."""
+    """`var = LOC.splitlines(..)`; LOC reset; every element of var re-appended to LOC - directly, or accumulated in a local
+    that is stored into LOC at the site, or mapped by a comprehension in the stored value.  Returns a problem text (a concrete
+    construct or path that loses a line) or None."""
     uses = [n for n in ast.walk(fn) if isinstance(n, ast.Name) and n.id == var]
+    # the stored value maps every element itself: LOC = ''.join(f(x) for x in var) / LOC = prefix + ''.join([...])
+    rhs = site.value if isinstance(site, ast.Assign) else None
+    if rhs is not None:
+        for comp in [n for n in ast.walk(rhs) if isinstance(n, (ast.GeneratorExp, ast.ListComp))]:
+            g = comp.generators[0]
+            it = g.iter.args[0] if isinstance(g.iter, ast.Call) and isinstance(g.iter.func, ast.Name) and g.iter.func.id == 'enumerate' and g.iter.args else g.iter
+            if len(comp.generators) == 1 and isinstance(it, ast.Name) and it.id == var:
+                tv = g.target.elts[-1] if isinstance(g.target, ast.Tuple) else g.target
+                if isinstance(tv, ast.Name) and any(isinstance(x, ast.Name) and x.id == tv.id for x in ast.walk(comp.elt)):
+                    if all(isinstance(c, ast.Name) and c.id == tv.id for c in g.ifs):
+                        return None
+                    raise Undecided(f'{qn}: the comprehension that rebuilds {loc} filters the lines: {short(comp)}')
+    # accumulator: LOC = ACC [+ ...] where ACC is a local that the loop over var appends to
+    tgt = loc
+    if rhs is not None:
+        for l in _add_leaves(rhs):
+            if isinstance(l, ast.Name) and any(isinstance(n, ast.AugAssign) and isinstance(n.target, ast.Name) and n.target.id == l.id for n in ast.walk(fn)):
+                tgt = l.id
+    acc = tgt != loc
     parents = {}
     for n in ast.walk(fn):
         for ch in ast.iter_child_nodes(n):
@@ -836,7 +938,7 @@ def _rebuild_ok(ctx: RuleCtx, p: Pass, qn: str, fn: ast.FunctionDef, site: ast.s
             st = call
             while st is not None and not isinstance(st, ast.stmt):
                 st = parents.get(id(st))
-            if isinstance(st, ast.Assign) and len(st.targets) == 1 and norm(st.targets[0]) == loc and isinstance(call, ast.Call) \
+            if isinstance(st, ast.Assign) and len(st.targets) == 1 and norm(st.targets[0]) in (loc, tgt) and isinstance(call, ast.Call) \
                     and len(call.args) == 1 and isinstance(call.args[0], ast.Constant) and call.args[0].value == 0:
                 continue                               # LOC = var.pop(0): the first line stays in LOC
             return f'`{short(st)}` removes an element of `{var}` without keeping it in {loc}'
@@ -849,7 +951,17 @@ def _rebuild_ok(ctx: RuleCtx, p: Pass, qn: str, fn: ast.FunctionDef, site: ast.s
     l_nodes = [n for n in cfg.nodes if n.ast is loop and n.kind == 'iter']
     if not s_nodes or not l_nodes:
         raise Undecided(f'{qn}: reset or loop not found in the CFG')
-    if not all(cfg.must_pass(s, cfg.exit_return, l_nodes, no_exc=True) for s in s_nodes):
+    if acc:
+        if not all(cfg.must_pass(cfg.entry, s, l_nodes, no_exc=True) for s in s_nodes):
+            return f'`{tgt}` is stored into {loc} on a path that did not run the loop over `{var}`'
+        for n in cfg.nodes:
+            a = n.ast
+            if n.kind == 'stmt' and isinstance(a, ast.Assign) and any(isinstance(t, ast.Name) and t.id == tgt for t in a.targets) \
+                    and not any(isinstance(l, ast.Name) and l.id == tgt for l in _add_leaves(a.value)):
+                if any(cfg.can_reach(ln, n) for ln in l_nodes) and any(cfg.can_reach(n, sn) or n is sn for sn in s_nodes) \
+                        and not any(a is x for x in ast.walk(loop)):
+                    return f'`{short(a)}` overwrites the accumulated text after the loop over `{var}`'
+    elif not all(cfg.must_pass(s, cfg.exit_return, l_nodes, no_exc=True) for s in s_nodes):
         return f'after the reset of {loc} a path reaches the end of the function without running the loop over `{var}`'
     t = loop.target
     lv = t.elts[-1] if isinstance(t, ast.Tuple) and isinstance(loop.iter, ast.Call) else t
@@ -866,17 +978,17 @@ def _rebuild_ok(ctx: RuleCtx, p: Pass, qn: str, fn: ast.FunctionDef, site: ast.s
                 if not (isinstance(v, ast.Call) and isinstance(v.func, ast.Attribute) and v.func.attr in ('strip', 'rstrip', 'lstrip', 'expandtabs')
                         and norm(v.func.value) == lv.id and not v.args):
                     raise Undecided(f'{qn}: the line variable is rebound by `{short(st)}`')
-            if isinstance(st, ast.AugAssign) and isinstance(st.op, ast.Add) and norm(st.target) == loc and any(isinstance(x, ast.Name) and x.id == lv.id for x in ast.walk(st.value)):
+            if isinstance(st, ast.AugAssign) and isinstance(st.op, ast.Add) and norm(st.target) == tgt and any(isinstance(x, ast.Name) and x.id == lv.id for x in ast.walk(st.value)):
                 appended = True
-            if isinstance(st, ast.Assign) and len(st.targets) == 1 and norm(st.targets[0]) == loc:
+            if isinstance(st, ast.Assign) and len(st.targets) == 1 and norm(st.targets[0]) == tgt:
                 lv_in = any(isinstance(x, ast.Name) and x.id == lv.id for l in _add_leaves(st.value) for x in ast.walk(l))
-                if any(norm(l) == loc for l in _add_leaves(st.value)) and lv_in:
+                if any(norm(l) == tgt for l in _add_leaves(st.value)) and lv_in:
                     appended = True
-                elif not any(norm(l) == loc for l in _add_leaves(st.value)):
-                    return f'inside the loop `{short(st)}` overwrites {loc}'
+                elif not any(norm(l) == tgt for l in _add_leaves(st.value)):
+                    return f'inside the loop `{short(st)}` overwrites {tgt}'
         empty_line = any(ev.kind == 'cond' and isinstance(ev.node, ast.Name) and ev.node.id == lv.id and ev.val is False for ev in path.events)
         if not appended and not empty_line and path.outcome in ('fall', 'continue', 'break', 'return'):
-            return f'a path through the loop body does not append the line to {loc}: {path.describe()}'
+            return f'a path through the loop body does not append the line to {tgt}: {path.describe()}'
         if path.outcome in ('break', 'return'):
             return f'the loop over `{var}` can stop early ({path.outcome}): {path.describe()}'
     return None
@@ -982,8 +1094,8 @@ def r3(ctx: RuleCtx) -> None:
                     verdict = _judge_site(ctx, p, qn, fn, s, w, movers, passes, colons_inv)
                     kinds[verdict] = kinds.get(verdict, 0) + 1
     ctx.note(f'{n_sites} discard sites {kinds}; {n_keep} appending writes (+=) keep the old content')
-    ctx.floor('whitespace discard sites', n_sites, 20)
-    ctx.floor('appending whitespace writes', n_keep, 15)
+    ctx.floor('whitespace discard sites', n_sites, 15)
+    ctx.floor('appending whitespace writes', n_keep, 5)
 
 
 def _judge_site(ctx: RuleCtx, p: Pass, qn: str, fn: ast.FunctionDef, s: Site, w: Write, movers: T.Dict[str, T.Tuple[int, int]],
@@ -1030,6 +1142,11 @@ def _judge_site(ctx: RuleCtx, p: Pass, qn: str, fn: ast.FunctionDef, s: Site, w:
 
     def observer(ev: T.Any, sub: T.Callable[[ast.AST], ast.AST], notes: T.Dict[str, T.Any]) -> T.Optional[str]:
         st = ev.node
+        if ev.kind == 'iter' and st is not None:
+            # lines re-appended by a loop restore the content that an earlier reset removed
+            if any(isinstance(n, ast.AugAssign) and norm(sub(n.target)) == loc for b in getattr(st, 'body', []) for n in ast.walk(b)):
+                notes['reset'] = False
+            return None
         if ev.kind != 'stmt' or st is None:
             return None
         if isinstance(st, (ast.Assign, ast.AugAssign)):
@@ -1038,7 +1155,9 @@ def _judge_site(ctx: RuleCtx, p: Pass, qn: str, fn: ast.FunctionDef, s: Site, w:
                 tk = norm(sub(t))
                 leaves = [norm(sub(l)) for l in _add_leaves(st.value)]
                 if tk == loc and isinstance(st, ast.Assign) and loc not in leaves:
-                    return 'skip'            # the content was already replaced earlier on this path (judged at that site)
+                    notes['reset'] = True    # the content was replaced earlier on this path (judged at that site) ...
+                elif tk == loc:
+                    notes['reset'] = False   # ... unless it has been appended to again since
                 if tk == parent and isinstance(st, ast.Assign):
                     return 'skip'
                 if tk != loc and tk.endswith('.value') and loc in leaves:
@@ -1047,10 +1166,9 @@ def _judge_site(ctx: RuleCtx, p: Pass, qn: str, fn: ast.FunctionDef, s: Site, w:
                     and isinstance(st.value.func, ast.Attribute) and st.value.func.attr == 'splitlines' and norm(sub(st.value.func.value)) == loc:
                 notes['captured'] = st.targets[0].id
         for c in walk_no_nested(st):
-            if isinstance(c, ast.Call) and isinstance(c.func, ast.Attribute) and attr_chain(c.func.value) == 'self' and c.func.attr in movers:
-                i, j = movers[c.func.attr]
-                if len(c.args) > max(i, j) and norm(sub(c.args[i])) + '.whitespaces' == parent:
-                    notes['moved'] = short(c, 70)
+            ma = _mover_args(p, c, movers) if isinstance(c, ast.Call) else None
+            if ma is not None and norm(sub(ma[0])) + '.whitespaces' == parent:
+                notes['moved'] = short(c, 70)
         return None
 
     failures: T.List[T.Tuple[str, Reach]] = []
@@ -1065,6 +1183,9 @@ def _judge_site(ctx: RuleCtx, p: Pass, qn: str, fn: ast.FunctionDef, s: Site, w:
         if not rs:
             how.add('guarded')
         for r in rs:
+            if r.notes.get('reset'):
+                how.add('guarded')
+                continue
             if r.notes.get('moved'):
                 how.add('moved')
                 continue
@@ -1114,10 +1235,13 @@ def _justified(ctx: RuleCtx, p: Pass, qn: str, fn: ast.FunctionDef, s: Site, par
             y = _first_param(g)
             good = True
             n = 0
+            unresolved: T.List[str] = []
             for h in trailing_hyps(y, True):
                 _Inline(ctx, q).use()
                 rs_q = reach(g, None, h, whole=True)
                 _Inline(ctx, p).use()
+                from .c16_sym import Evaluator, simplify
+                inl_q = _Inline(ctx, q)
                 for r in rs_q:
                     n += 1
                     moved = False
@@ -1127,13 +1251,27 @@ def _justified(ctx: RuleCtx, p: Pass, qn: str, fn: ast.FunctionDef, s: Site, par
                         if ev.kind != 'stmt' or st is None:
                             continue
                         for c in walk_no_nested(st):
-                            if isinstance(c, ast.Call) and isinstance(c.func, ast.Attribute) and c.func.attr in mv and attr_chain(c.func.value) == 'self':
-                                i, j = mv[c.func.attr]
-                                if len(c.args) > max(i, j) and norm(subst(c.args[i], binds)) == f'{y}.commas[-1]' and norm(subst(c.args[j], binds)) == y:
-                                    moved = True
+                            ma = _mover_args(q, c, mv) if isinstance(c, ast.Call) else None
+                            if ma is None:
+                                continue
+                            src, dst = subst(ma[0], binds), subst(ma[1], binds)
+                            if isinstance(src, ast.Call):
+                                src = inl_q.resolve(src) or src          # the element is selected by a helper
+                            src = simplify(src, Evaluator(dict(h.stable), None, None, h.atoms))
+                            if norm(dst) != y:
+                                continue
+                            if norm(src) == f'{y}.commas[-1]':
+                                moved = True
+                            elif attr_chain(src.value if isinstance(src, ast.Subscript) else src) is None or isinstance(src, ast.Name):
+                                # the source of the move is computed by code the rule cannot resolve to an access path
+                                unresolved.append(f'{q.name}.{fn.name}: cannot tell which element `{short(c, 70)}` moves the whitespace of '
+                                                  f'when a trailing comma is present (resolved to `{short(src, 60)}`)')
+                                moved = True     # not evidence against the justification
                         if isinstance(st, ast.Assign) and len(st.targets) == 1 and isinstance(st.targets[0], ast.Name):
                             binds[st.targets[0].id] = subst(st.value, binds)
                     good = good and moved
+            if good and unresolved:
+                raise Undecided(unresolved[0])
             if good and n and _pass_order(ctx, q.name, p.name):
                 return (f'{q.name}.{fn.name} moves the whitespace of the trailing comma to the argument list on all {n} path(s) with a trailing comma, '
                         f'and Formatter.format runs {q.name} before {p.name} in every round')
@@ -1180,89 +1318,201 @@ def _justified(ctx: RuleCtx, p: Pass, qn: str, fn: ast.FunctionDef, s: Site, par
 # ---------------------------------------------------------------------------
 # R4: check mode
 
+def _single_defs(fn: ast.AST) -> T.Dict[str, ast.AST]:
+    defs: T.Dict[str, T.List[ast.AST]] = {}
+    for n in ast.walk(fn):
+        if isinstance(n, ast.Assign):
+            for t in n.targets:
+                for x in ast.walk(t):
+                    if isinstance(x, ast.Name):
+                        defs.setdefault(x.id, []).append(n.value if t is x else None)  # type: ignore[arg-type]
+        elif isinstance(n, (ast.AugAssign, ast.AnnAssign)) and isinstance(n.target, ast.Name):
+            defs.setdefault(n.target.id, []).append(n.value if isinstance(n, ast.AnnAssign) else None)  # type: ignore[arg-type]
+        elif isinstance(n, (ast.For, ast.comprehension)):
+            for x in ast.walk(n.target):
+                if isinstance(x, ast.Name):
+                    defs.setdefault(x.id, []).append(None)  # type: ignore[arg-type]
+        elif isinstance(n, ast.withitem) and n.optional_vars is not None:
+            for x in ast.walk(n.optional_vars):
+                if isinstance(x, ast.Name):
+                    defs.setdefault(x.id, []).append(None)  # type: ignore[arg-type]
+    return {k: v[0] for k, v in defs.items() if len(v) == 1 and v[0] is not None}
+
+
+def _write_sinks(mod: Module, scope: ast.AST) -> T.List[T.Tuple[ast.Call, ast.AST]]:
+    """(call, text expression) for every text written inside scope: `.write(X)`, `print(X, end=..)`, and calls of module
+    functions that hand a parameter to `.write()` (arguments bound by signature)."""
+    from .c16_sym import bind_args
+    out: T.List[T.Tuple[ast.Call, ast.AST]] = []
+    for c in ast.walk(scope):
+        if not isinstance(c, ast.Call):
+            continue
+        if isinstance(c.func, ast.Attribute) and c.func.attr == 'write' and len(c.args) == 1:
+            out.append((c, c.args[0]))
+        elif isinstance(c.func, ast.Name) and c.func.id == 'print' and any(k.arg == 'end' for k in c.keywords) and len(c.args) == 1:
+            out.append((c, c.args[0]))
+        elif isinstance(c.func, ast.Name) and mod.has_func(c.func.id):
+            g = mod.func(c.func.id)
+            params = {a.arg for a in g.args.posonlyargs + g.args.args + g.args.kwonlyargs}
+            written = [x for _, x in _write_sinks(mod, g) if isinstance(x, ast.Name) and x.id in params] if g is not scope else []
+            if written:
+                m = bind_args(g, c, False)
+                if m is None:
+                    raise Undecided(f'run(): cannot bind the arguments of `{short(c)}`')
+                for x in written:
+                    if x.id in m:
+                        out.append((c, m[x.id]))
+    return out
+
+
 def r4(ctx: RuleCtx) -> None:
+    from .c16_sym import helper_expression, bind_args
     mod = ctx.repo.module(MF)
     fn = mod.func('run')
-    loops = [s for s in fn.body if isinstance(s, ast.While)]
-    if len(loops) != 1:
-        raise Undecided('run(): expected one loop over the sources')
-    loop = loops[0]
-    # the formatted text and its input
-    fmt = [n for n in ast.walk(loop) if isinstance(n, ast.Assign) and isinstance(n.value, ast.Call) and isinstance(n.value.func, ast.Attribute)
-           and n.value.func.attr == 'format' and len(n.targets) == 1 and isinstance(n.targets[0], ast.Name) and len(n.value.args) >= 1]
+    # the formatted text and its input (found by role: result / first argument of <formatter>.format(..) inside a loop)
+    fmt = [n for n in ast.walk(fn) if isinstance(n, ast.Assign) and isinstance(n.value, ast.Call) and isinstance(n.value.func, ast.Attribute)
+           and n.value.func.attr == 'format' and len(n.targets) == 1 and isinstance(n.targets[0], ast.Name) and len(n.value.args) >= 1
+           and not isinstance(n.value.func.value, ast.Constant)]
     if len(fmt) != 1 or not isinstance(fmt[0].value.args[0], ast.Name):  # type: ignore[attr-defined]
         raise Undecided('run(): `formatted = formatter.format(code, ...)` not found')
+    loops = [s for s in ast.walk(fn) if isinstance(s, (ast.While, ast.For)) and any(x is fmt[0] for x in ast.walk(s))]
+    if not loops:
+        raise Undecided('run(): the formatting is not inside a loop over the sources')
+    loop = loops[0]
     out_v = fmt[0].targets[0].id  # type: ignore[attr-defined]
     in_v = fmt[0].value.args[0].id  # type: ignore[attr-defined]
     others = [n for n in ast.walk(loop) if isinstance(n, (ast.Assign, ast.AugAssign)) and n is not fmt[0]
               and any(isinstance(t, ast.Name) and t.id == out_v for t in (n.targets if isinstance(n, ast.Assign) else [n.target]))]
     ctx.require(not others, f'run(): `{out_v}` is only the result of format({in_v}, ..)', mod, 'run', others[0] if others else fn,
                 f'`{out_v}` is modified after formatting: what is compared/written is no longer the formatter output')
-    # every text written is the formatted text
-    writes = [c for c in ast.walk(loop) if isinstance(c, ast.Call) and isinstance(c.func, ast.Attribute) and c.func.attr == 'write']
-    prints = [c for c in ast.walk(loop) if isinstance(c, ast.Call) and isinstance(c.func, ast.Name) and c.func.id == 'print' and any(k.arg == 'end' for k in c.keywords)]
-    ctx.floor('texts written by run()', len(writes) + len(prints), 3)
-    for c in writes + prints:
-        ctx.require(len(c.args) == 1 and norm(c.args[0]) == out_v, f'run(): `{short(c)}` writes the formatter output', mod, 'run', c,
-                    f'`{short(c)}` writes something else than `{out_v}`, the text that check mode compares', c)
-    # err is 0 initially, returned at the end
-    errs = [n for n in ast.walk(fn) if isinstance(n, ast.Assign) and len(n.targets) == 1 and isinstance(n.targets[0], ast.Name) and isinstance(n.value, ast.Constant)
-            and n.value.value == 1 and n.targets[0].id not in (out_v, in_v)]
-    if not errs:
-        ctx.violation(mod, 'run', 'err = 1', 'run() never sets a non-zero status: check mode cannot report a difference', fn)
-        return
-    ev = errs[0].targets[0].id  # type: ignore[attr-defined]
-    rets = [n for n in ast.walk(fn) if isinstance(n, ast.Return)]
-    ctx.require(all(r.value is not None and norm(r.value) == ev for r in rets) and len(rets) >= 1, f'run() returns `{ev}`', mod, 'run', fn, f'run() does not return the status variable {ev}')
-    inits = [n for n in fn.body if isinstance(n, ast.Assign) and len(n.targets) == 1 and norm(n.targets[0]) == ev]
-    ctx.require(len(inits) == 1 and isinstance(inits[0].value, ast.Constant) and inits[0].value.value == 0, f'`{ev}` starts at 0', mod, 'run', fn, f'{ev} is not initialised to 0')
+    sdefs = _single_defs(fn)
+    aliases = {k for k, v in sdefs.items() if isinstance(v, ast.Name) and v.id == out_v} | {out_v}
+    # every sink of the formatted text receives it unchanged
+    n_sinks = 0
+    for c, x in _write_sinks(mod, loop):
+        names = {n.id for n in ast.walk(x) if isinstance(n, ast.Name)}
+        if not (names & aliases):
+            continue          # some other text (a diff, a message)
+        n_sinks += 1
+        ctx.require(isinstance(x, ast.Name), f'run(): `{short(c)}` writes the formatter output', mod, 'run', c,
+                    f'`{short(c)}` writes `{short(x)}`, a text derived from `{out_v}`, not the text that check mode compares', c)
+    ctx.floor('sinks of the formatted text in run()', n_sinks, 1)
+    # the status variable, by role: what run() returns
+    rets = [n for n in ast.walk(fn) if isinstance(n, ast.Return) and not any(n in ast.walk(g) for g in ast.walk(fn) if isinstance(g, (ast.FunctionDef, ast.Lambda)) and g is not fn)]
+    rnames = {norm(r.value) for r in rets if r.value is not None}
+    if len(rnames) != 1 or not all(isinstance(r.value, ast.Name) for r in rets):
+        raise Undecided(f'run(): the exit status is not one variable returned at the end ({sorted(rnames)})')
+    ev = rnames.pop()
+    inits = [n for n in fn.body if isinstance(n, (ast.Assign, ast.AnnAssign)) and norm(n.targets[0] if isinstance(n, ast.Assign) else n.target) == ev]
+    if len(inits) != 1 or not isinstance(inits[0].value, ast.Constant):
+        raise Undecided(f'run(): initial value of `{ev}` not found')
+    ctx.require(not inits[0].value.value, f'`{ev}` starts at 0', mod, 'run', inits[0], f'`{ev}` starts at {inits[0].value.value!r}: run() reports a difference before looking at any file', inits[0])
 
     def effects(st: ast.AST) -> T.Optional[str]:
-        if isinstance(st, ast.Assign) and len(st.targets) == 1 and norm(st.targets[0]) == ev:
-            return f'{ev} := {norm(st.value)}'
+        if isinstance(st, (ast.Assign, ast.AugAssign, ast.AnnAssign)):
+            tg = st.targets if isinstance(st, ast.Assign) else [st.target]
+            if any(norm(t) == ev for t in tg):
+                return norm(st)
         return None
     tab = tables.extract(fn, body=loop.body, effects=effects, inline=False, name='run:loop')
-    a_inpl, a_co, a_cd = Atom('truth', ('ARG1.inplace',)), Atom('truth', ('ARG1.check_only',)), Atom('truth', ('ARG1.check_diff',))
-    a_eq = [Atom('cmp', ('eq', *sorted((in_v, out_v))))]
+    opt = next((a.arg for a in fn.args.args), 'options')
+
+    def flag(name: str) -> T.List[Atom]:
+        out = [Atom('truth', (f'ARG1.{name}',))]
+        out += [Atom('truth', (k,)) for k, v in sdefs.items() if norm(v) == f'{opt}.{name}']
+        return out
+    eq_atom = Atom('cmp', ('eq', *sorted((in_v, out_v))))
+    # a comparison bound to a local first, or made by a module helper `return a != b`
+    alias_eq: T.Dict[Atom, bool] = {}
+    for k, v in sdefs.items():
+        a, pol = tables.canon(v, True)
+        if a == eq_atom:
+            alias_eq[Atom('truth', (k,))] = pol
+
+    def eq_of(r: tables.Row) -> T.Tuple[T.Optional[bool], T.List[Atom]]:
+        """(do the texts compare equal on this row, atoms about both texts that are not understood)."""
+        res: T.Optional[bool] = None
+        unknown: T.List[Atom] = []
+        for a, val in r.conds.items():
+            if a == eq_atom:
+                res = val
+            elif a in alias_eq:
+                res = val if alias_eq[a] else not val
+            elif in_v in str(a.args) and out_v in str(a.args):
+                e = ast.parse(a.args[0], mode='eval').body if a.kind == 'truth' else None
+                if isinstance(e, ast.Call) and isinstance(e.func, ast.Name) and mod.has_func(e.func.id):
+                    g = mod.func(e.func.id)
+                    he, m = helper_expression(g), bind_args(g, e, False)
+                    if he is not None and m is not None:
+                        a2, pol = tables.canon(subst(he, m), True)
+                        if a2 == eq_atom:
+                            res = val if pol else not val
+                            continue
+                unknown.append(a)
+        return res, unknown
+
+    def val_of(r: tables.Row, atoms: T.List[Atom]) -> T.Optional[bool]:
+        for a in atoms:
+            if a in r.conds:
+                return r.conds[a]
+        return None
     n_rows = n_check = 0
     bad: T.Dict[str, T.Tuple[tables.Row, str]] = {}
     for r in tab.rows:
-        if r.outcome[0] == 'raise':
-            continue
-        reached_fmt = any(e.node is fmt[0] for e in r.path.events)
-        if not reached_fmt:
+        if r.outcome[0] == 'raise' or not any(e.node is fmt[0] for e in r.path.events):
             continue
         n_rows += 1
-        inpl, co, cd = r.conds.get(a_inpl), r.conds.get(a_co), r.conds.get(a_cd)
+        inpl, co, cd = val_of(r, flag('inplace')), val_of(r, flag('check_only')), val_of(r, flag('check_diff'))
         if inpl is None:
             raise Undecided(f'run(): a path after formatting does not test options.inplace: {r!r}')
         # a mode flag the path never tests may have either value: the path also serves the worlds where it is set
         check = (not inpl) and (co is not False or cd is not False)
-        eqs = [r.conds[a] for a in a_eq if a in r.conds]
-        unknown_cmp = [a for a in r.conds if a.kind in ('cmp', 'truth') and (in_v in str(a.args) and out_v in str(a.args)) and a not in a_eq]
-        if unknown_cmp:
-            # compares something derived from the two texts: not the texts themselves
-            bad.setdefault('cmp', (r, f'check mode compares `{unknown_cmp[0]!r}`, not the text read with the text that would be written ({in_v} != {out_v})'))
+        eq, unknown = eq_of(r)
+        sets = list(r.effects)
+        if unknown:
+            e = ast.parse(unknown[0].args[-1] if unknown[0].kind == 'truth' else 'None', mode='eval').body
+            derived = unknown[0].kind == 'cmp' or isinstance(e, ast.Compare)
+            if not derived:
+                raise Undecided(f'run(): the texts are compared by `{unknown[0]!r}`, which the rule cannot see into')
+            # a comparison of texts *derived* from the two (stripped, sliced ...): not the texts read / written
+            bad.setdefault('cmp', (r, f'check mode compares `{unknown[0]!r}`, not the text read with the text that would be written ({in_v} != {out_v})'))
             continue
-        sets = [e for e in r.effects]
         if check:
             n_check += 1
-            if not eqs:
-                bad.setdefault('nocmp', (r, f'in check mode a path does not compare {in_v} with {out_v}: {r!r}'))
+            if eq is None:
+                # closed world: nothing on this path is handed both texts
+                derived_by = ''
+                for e2 in r.path.events:
+                    if e2.node is None or e2.node is fmt[0]:
+                        continue
+                    for c in ast.walk(e2.node):
+                        if isinstance(c, ast.Call):
+                            cargs = list(c.args) + [k.value for k in c.keywords]
+                            names = {n.id for a in cargs for n in ast.walk(a) if isinstance(n, ast.Name)}
+                            if in_v in names and names & aliases:
+                                bare = any(isinstance(a, ast.Name) and a.id in aliases | {in_v} for a in cargs)
+                                in_repo = (isinstance(c.func, ast.Name) and mod.has_func(c.func.id)) or (attr_chain(c.func) or '').startswith('self.')
+                                if bare or in_repo:
+                                    raise Undecided(f'run(): in check mode the two texts are handed to `{short(c)}`, which the rule does not follow')
+                                derived_by = short(c, 90)     # an external function is given texts derived from the two, never the texts
+                bad.setdefault('nocmp', (r, f'in check mode a path does not compare {in_v} with {out_v}'
+                                         + (f'; it only derives other values from them for `{derived_by}`' if derived_by else '') + f': {r!r}'))
                 continue
-            differs = not eqs[0]
-            want = [f'{ev} := 1'] if differs else []
-            if sets != want:
-                bad.setdefault(f'set{differs}', (r, f'check mode, texts {"differ" if differs else "are equal"}: the path does {sets or "nothing"}, expected {want or "nothing"} ({r!r})'))
-        else:
-            if sets:
-                bad.setdefault('noncheck', (r, f'status is modified outside check mode: {r!r}'))
+            differs = not eq
+            truthy = [s2 for s2 in sets if re.fullmatch(rf'{re.escape(ev)} = (1|True)', s2)]
+            if differs and sets and len(truthy) != len(sets) or (not differs and sets):
+                bad.setdefault(f'set{differs}', (r, f'check mode, texts {"differ" if differs else "are equal"}: the path does {sets}, expected '
+                                                 f'{f"{ev} = 1" if differs else "no change of the status"} ({r!r})'))
+            elif differs and not sets:
+                bad.setdefault('notset', (r, f'check mode, texts differ: the path leaves `{ev}` unchanged ({r!r})'))
+        elif sets:
+            bad.setdefault('noncheck', (r, f'status is modified outside check mode: {r!r}'))
     for k, (r, msg) in bad.items():
         node = next((e.node for e in reversed(r.path.events) if e.kind == 'cond'), fn)
         ctx.violation(mod, 'run', f'check-mode status [{k}]', msg, node)
     if not bad:
         ctx.ok(f'run(): on {n_rows} paths after formatting ({n_check} in check mode) `{ev}` becomes 1 iff check mode and {in_v} != {out_v}')
-    ctx.floor('check-mode paths', n_check, 4)
+    ctx.floor('check-mode paths', n_check, 2)
 
 
 def _scoped(fn: T.Callable[[RuleCtx], None]) -> T.Callable[[RuleCtx], None]:
